@@ -68,6 +68,10 @@ def run(ctx):
                         pr = gd["pred"].strip()
                         if pr.k == "bin" and pr.a in ("Eq", "Ne") and any(c.get("v") == 1 for c in pr.consts()) and any(c.a["name"] == "len" for c in pr.call_nodes()):
                             one = (pr.a == "Eq") == (gd["bool"] is True)
+                        # `arg.contains("{}")`: the same question (a string without the separator splits into one piece)
+                        if pr.k == "call" and pr.a["name"] == "contains" and gd["bool"] is not None and [c.get("v") for c in prim.resolve_promoted(cl, pr).consts() if c.get("k") == "str"] == ["{}"] \
+                                and any(x.k == "arg" for x in pr.kids[0].walk()) and not pr.kids[0].call_nodes():
+                            one = gd["bool"] is False
                     if v == "LiteralArg":
                         ok = set(cn) <= {"from", "into", "to_owned", "to_os_string", "new"} and any(x.k == "arg" for x in o.walk()) and one is True
                         ctx.ob("R1", "literal-argument", ok, "LiteralArg(%s) under `parts.len()==1` = %s; an argument without `{}` must be stored unchanged, and only then" % (o.fmt(), one), fn=cl, where=prim.site(cl, b, s), how="provenance slice + dominating guard")
